@@ -30,7 +30,8 @@
   The `unwrap`s of lines 260, 312, 377–432, 483, 493 sit directly behind their own `is_some()` test
   (`c.is_none() || …`, `c.is_some() && …`, `if c.is_some() {`) and are pattern matches here.
 
-  What is NOT modelled: the numeric phase (lines 506–643).  `.number l sticky` hands over exactly the state that
+  What is NOT modelled HERE: the numeric phase (lines 506–643) — it is transcribed in `DecModel/ScanNum.lean`
+  (`numericPhase`, and the composition `fromStringCode`), proved correct in `DecProofs/Properties/C04ScanNum.lean`.  `.number l sticky` hands over exactly the state that
   phase reads: the sign, the stored digits (at most 100), `right_radix_leading_zeros`, the digit counts and the
   exponent, packed into a `Literal` as described at `finishScan`.  (That phase indexes `buffer` at fixed positions
   below `ndigits_total.min(100)` and unwraps `to_digit(buffer[34])` only when `ndigits_total > 34`; its input space is
